@@ -150,16 +150,34 @@ def openBin (A : Arith T) (k : Kind) (h : Hdr T) (itemsize bytes : Nat) : Except
   memmap bytes ns' h'.nc itemsize
   return h'
 
-/-- The mtscomp branch of `Reader.open`; `chShape` is the `(n_samples, n_channels)` announced by the `.ch` file
-(`mtscomp.Reader.shape`).  Nothing is mapped, no size is checked.  (The warning's only subscript is
-`self.meta['fileTimeSecs']`, which is present whenever `self.ns` could be evaluated.) -/
-def openCbin (A : Arith T) (h : Hdr T) (chShape : Nat × Nat) : Except Err (Hdr T) := do
+/-- What `mtscomp.Reader` reads from the `.ch` file: `n_samples`, `n_channels` (together `shape`) and the
+`sample_rate` the stream was compressed with — the nominal rate of the acquisition, in general NOT the calibrated rate
+the `.meta` file carries later (`imSampRate=30000.390639481` vs `sample_rate: 30000.0`). -/
+structure ChHdr (T : Type) where
+  nSamples : Nat
+  nChannels : Nat
+  sampleRate : T
+
+/-- The mtscomp branch of `Reader.open`; `ch` is the header of the `.ch` file.  Nothing is mapped, no size is
+checked.  The duration is rewritten from the stream's sample count and the META rate (`self._raw.shape[0] / self.fs`):
+`ch.sampleRate` is deliberately not used, so that `ns = round(fileTimeSecs * fs)` comes back to `shape[0]`.
+(The warning's only subscript is `self.meta['fileTimeSecs']`, present whenever `self.ns` could be evaluated.) -/
+def openCbin (A : Arith T) (h : Hdr T) (ch : ChHdr T) : Except Err (Hdr T) := do
   let ns ← h.nsOffline A
   -- if self._raw.shape != (self.ns, self.nc):
-  if chShape ≠ (ns, h.nc) then
+  if (ch.nSamples, ch.nChannels) ≠ (ns, h.nc) then
     -- ftsec = self._raw.shape[0] / self.fs
     if A.isZero (h.fs A) then .error .zeroDivision
-    else .ok (h.setFileTimeSecs (A.div (A.ofNat chShape.1) (h.fs A)))
+    else .ok (h.setFileTimeSecs (A.div (A.ofNat ch.nSamples) (h.fs A)))
+  else .ok h
+
+/-- The variant a seeded change introduced (kept for `cbin_ch_rate_counterexample`): duration from the `.ch` header,
+`ftsec = self._raw.n_samples / self._raw.sample_rate`. -/
+def openCbinChRate (A : Arith T) (h : Hdr T) (ch : ChHdr T) : Except Err (Hdr T) := do
+  let ns ← h.nsOffline A
+  if (ch.nSamples, ch.nChannels) ≠ (ns, h.nc) then
+    if A.isZero ch.sampleRate then .error .zeroDivision
+    else .ok (h.setFileTimeSecs (A.div (A.ofNat ch.nSamples) ch.sampleRate))
   else .ok h
 
 /-- `Reader.rl = self.ns / self.fs`. -/
